@@ -108,6 +108,10 @@ def bstep (d : Drv) (b : B.State) (toks : List String) : Drv × List String :=
     match c.toNat? with
     | some c => finE (B.setCapacity b c)
     | none => (d, ["bad-op"])
+  | "fail" :: rs =>
+    match rs.mapM String.toNat? with
+    | some rs => fin { b with failing := rs } "ok"
+    | none => (d, ["bad-op"])
   | "call" :: h :: rest =>
     let hd : Option Handle :=
       if h.startsWith "o" then (rest1 h).toNat?.map Handle.root
